@@ -641,6 +641,37 @@ def _calls_of(paths):
 XTOL, RTOL = Fraction("2e-12"), Fraction("8.881784197001252e-16")
 
 
+def _lift_each(core, depth=0):
+    """be + al * each(x) (al, be free of the element-wise wrapper) -> be + al * x: an affine map commutes with `for every element`.  Anything else is
+    returned as it is (and is then not an affine function of the root for the caller)."""
+    if depth > 4 or not rat(core):
+        return core
+    try:
+        if not core.d.is_const():
+            return core
+        hits = [a for a in core.n.atoms() if F.atom_desc(a)[:2] == ("fn", "each")]
+        if len(hits) != 1:
+            return core
+        a = hits[0]
+        al, rest = None, {}
+        for mono, c in core.n.t.items():
+            if any(x == a for x, _ in mono):
+                if mono != ((a, 1),):
+                    return core
+                al = c
+            else:
+                rest[mono] = c
+        E = F.Rat(F.Poly({((a, 1),): 1}))
+        u = unfn(E)
+        if al is None or not u or len(u[1]) != 1 or not rat(u[1][0]):
+            return core
+        dc = core.d.const_value()
+        out = F.Rat(F.Poly(dict(rest))) / dc + (F.const(al) / dc) * u[1][0]
+        return _lift_each(peel(out)[1] if not peel(out)[0] else out, depth + 1)
+    except Exception:  # noqa
+        return core
+
+
 def r4_order_stats(ctx):
     W, fn, which, arms = _order_stats(ctx)
     ok = all(any(q.returns for q in arms[k]) for k in arms)
@@ -683,6 +714,7 @@ def r4_order_stats(ctx):
         inv = None        # the root as a function of the returned quantity
         for q in rooted:
             names, core = peel(q.value)
+            core = _lift_each(core)
             # the result is an affine function of the root (the root itself, or its complement 1 - root): invert it
             try:
                 al = core.diff(xn)
